@@ -28,6 +28,8 @@ RULE = (
 BUDGET = {'quick': (80000, 55), 'thorough': (4_000_000, 600)}
 COMPONENTS = common.COMPONENTS
 ASSUMPTIONS = [
+    'a caller gives up on the future of its kill()/pause() between loop callbacks, not from inside a listener notification of '
+    'the transition that carries the request out',
     'the ready queue is FIFO (asyncio guarantee) - schedules that permute it are not generated',
     'lifecycle hooks of the generated programs do not raise (that is C03)',
     'kill text of the future-cancel path is the literal plumpy uses ("Killed by future being cancelled")',
@@ -91,11 +93,18 @@ def random_case(rng, tier):
     else:
         program = programs.gen_process_program(rng, PROGRAM_CFG)
     ticks, notify, _ = common.dry_run(program)
-    kinds = KINDS + (['cancel'] if rng.random() < 0.2 else []) + (['cancel_stepper'] if rng.random() < 0.15 else [])
+    kinds = KINDS + (['cancel'] if rng.random() < 0.2 else []) + (['cancel_stepper'] if rng.random() < 0.15 else []) \
+        + (['giveup', 'giveup'] if rng.random() < 0.15 else [])
     if program.get('kind') == 'workchain':
         kinds = ['pause', 'play', 'kill', 'kill', 'complete'] + (['cancel'] if rng.random() < 0.2 else [])
     max_actions = 4 if tier == 'quick' else 6
     schedule = common.gen_schedule(rng, kinds, max_actions, ticks, notify, must=['kill', 'kill', 'kill', 'cancel'])
+    for action in schedule:
+        if action['act'] == 'giveup' and 'on' in action:
+            # (a caller gives up between loop callbacks - a time-out - not from inside the notification of the very
+            # transition that carries its request out)
+            action.pop('on')
+            action['at'] = rng.randint(0, ticks + 2)
     for action in schedule:
         if action['act'] == 'complete':
             action.update(fut=rng.randrange(max(program.get('n_futures', 1), 1)), how='value', v='done')
@@ -187,9 +196,18 @@ def _oracle(engine, result, case):
     # when whoever runs the process gave up in between (its stepping task was cancelled), "as soon as the current step
     # yields" has no meaning any more: what remains is that kill() never raises and that a further kill() terminates the
     # process from wherever that left it
-    abandoned = engine.stepper_cancelled > 0
-    if abandoned:
+    abandoned = engine.stepper_cancelled > 0 or engine.given_up > 0
+    if engine.stepper_cancelled:
         result.counters['probe:stepping_task_cancelled'] += 1
+    if engine.given_up:
+        # a request whose caller gave up (cancelled the future it got back) is withdrawn, not lost; what must not happen is
+        # that the step in flight blows up over it
+        result.counters['probe:caller_gave_up_on_request'] += 1
+        task = engine.task
+        if task.done() and not task.cancelled() and task.exception() is not None:
+            result.violate('stepping_raised', type(task.exception()).__name__,
+                           f'after the caller of a kill()/pause() gave up on the future it got back, step_until_terminated() '
+                           f'ended with {task.exception()!r} (state {proc.state.value})')
     if first_kill is not None and not abandoned:
         index, text = first_kill
         signature_ctx = _kill_context_signature(engine, index)
